@@ -264,3 +264,12 @@ write("C08", [run(nm, CMD, "VerifC08FailStop", {"params": {"CAUSE": i}, "preempt
        "failure under a saturated audit stream is decided at worker level in C13 (audit ingester blocked on a full channel); filling the 10000-slot channel through the pipe is outside this check"],
       ["the built binary, real signals, kernel FIFO semantics, exit status as seen by a parent process", "write failures of the events file (decided at processor level in C05)", "the optional HTTP/metrics goroutines (flags off)"], site_prefix="c08.",
       init_extra=["github.com/elastic/go-libaudit/v2/auparse", "github.com/elastic/go-libaudit/v2"])
+
+# ---- C10
+write("C10", [run("one-session-through-the-daemon", CMD, "VerifC10CausalOrder", {"params": {}, "preempt": -2, "max_steps": 30000000}, {"params": {}, "preempt": 0, "max_steps": 60000000, "max_paths": 400000}, reach=["c10.daemon-stopped"],
+                  bounds="real cmd.RunNamedPipe; one accepted public-key login and the three records (LOGIN, USER_START, CRED_DISP) of its audit session; the sshd line at every position relative to the records; records in separate writes or one write; quick: canonical non-preemptive schedule, thorough: every non-preemptive schedule")],
+      ["'no event is torn or interleaved' is assumed at the file level: encoding/json issues one Write per Encode and the events file is opened O_APPEND (both read from the sources, neither executed); the engine checks that every event is handed to the shared writer exactly once and in causal order",
+       "aucoalesce.CoalesceMessages is a model in the engine (record type, timestamp, ses=, pid=, result); the native replay of the run's witness uses the real function on the same record lines",
+       "stubs as for C08"],
+      ["more than one session", "bursts larger than the records listed", "the built binary writing to a real file under load"], site_prefix="c10.",
+      init_extra=["github.com/elastic/go-libaudit/v2/auparse", "github.com/elastic/go-libaudit/v2"])
